@@ -4,6 +4,7 @@ from hypothesis import strategies as st
 from pbt import canon, refcodec, spec_table, strategies as S, wire
 from pbt.lib import body, call, decode, frame, header, heartbeat, method_class
 from pbt.props import c16
+from pbt import entry
 from pbt.runner import Component, HarnessError, Violation, lib_site
 
 PROPERTY_ID = 'C05'
@@ -82,6 +83,11 @@ def check_value(case):
     d = refcodec.agree(exp, got)
     if d:
         raise Violation('value:' + d.kind, d)
+    # the same bytes through the library's other decode entries (mapping tables, by_type)
+    if case['pos'] == 'table':
+        entry.decode_entries('field_table', data, (n, got))
+    else:
+        entry.table_mapping_entry(data, (n, got))
 
 
 def check_frame(case):
